@@ -1,7 +1,7 @@
 import Slock.Proofs.TextPanic
 import Slock.Proofs.TextChunk
 /-!
-# C13 (text part) — no argument list crashes a text command converter … except where it does
+# C13 (text part) — no argument list crashes a text command converter
 
 Property theorems only.  `Conv.panic` / `FlagOut.panic` / `Run.panic` are the model's explicit images of a Go runtime
 panic (index out of range); the model is compared with the real converters on every run of the check.
@@ -23,53 +23,48 @@ theorem convert_no_panic_lock (ctx : Ctx) (args : List Bytes) : (convertLock ctx
 
 /-! ## `ConvertArgs2Flag` (EX / PX / TX / PTX tails of SET, SETNX, SETEX, APPEND, INCR, DECR, …) -/
 
-/-- The guard is `i+i >= len(args)` where `i+1 >= len(args)` is meant: a value keyword that is the FIRST and ONLY
-element of the tail indexes `args[1]` of a one-element slice. -/
-theorem args2flag_panics : convertArgs2Flag {} [kEX] = .panic ∧ convertArgs2Flag {} [kPX] = .panic ∧
-    convertArgs2Flag {} [kTX] = .panic ∧ convertArgs2Flag {} [kPTX] = .panic := by decide
+/-- never panics, for every tail: the guard `i+1 >= len(args)` precedes `args[i+1]`.
+(Before the repair `fix: ConvertArgs2Flag checks i+1 (not i+i)…` a value keyword as the only element of the tail
+indexed out of range.) -/
+theorem args2flag_no_panic (h : Hdr) (tail : List Bytes) : convertArgs2Flag h tail ≠ .panic :=
+  convertArgs2Flag_no_panic h tail
 
-/-- … and that is the only way: every tail whose length is not 1 is converted without a panic. -/
-theorem args2flag_no_panic_partial (h : Hdr) (tail : List Bytes) (hl : tail.length ≠ 1) :
-    convertArgs2Flag h tail ≠ .panic := convertArgs2Flag_no_panic h tail hl
+/-- a value keyword without its value is an argument-count error -/
+theorem args2flag_missing_value :
+    convertArgs2Flag {} [kEX] = .err "Args_Count" ∧ convertArgs2Flag {} [kNX, kPTX] = .err "Args_Count" := by decide
 
-/-- the same guard wrongly REJECTS well-formed tails (no panic, recorded): `XX NX EX 10` -/
-theorem args2flag_rejects_valid : convertArgs2Flag {} [kXX, kNX, kEX, [49, 48]] = .err "Args_Count" := by decide
+/-- well-formed tails that the old guard refused are accepted: `XX NX EX 10` -/
+theorem args2flag_accepts_valid :
+    convertArgs2Flag {} [kXX, kNX, kEX, [49, 48]] =
+      .ok { flag := 32, lockId := .gen, timeoutFlag := 512, expried := 10 } := by decide
 
-/-! ## concrete panic witnesses (each replayed against the real converter by the harness) -/
+/-! ## the former panic inputs are now ordinary errors (each replayed against the real converter by the harness) -/
 
 /-- `SET k v EX` -/
-theorem set_ex_panics : convertKeyOp ctx0 0 [kSET, [107], [118], kEX] = .panic := by decide
-/-- `SETNX k v PX` -/
-theorem setnx_px_panics : convertKeyOp ctx0 0 [kSETNX, [107], [118], kPX] = .panic := by decide
-/-- `GETSET k v TX` -/
-theorem getset_tx_panics : convertKeyOp ctx0 0 [kGETSET, [107], [118], kTX] = .panic := by decide
-/-- `APPEND k v EX` -/
-theorem append_ex_panics : convertKeyOp ctx0 0 [kAPPEND, [107], [118], kEX] = .panic := by decide
-/-- `SETEX k 10` — the length guard is 3 but `args[3]` is read -/
-theorem setex_short_panics : convertKeyOp ctx0 0 [kSETEX, [107], [49, 48]] = .panic := by decide
-/-- `PSETEX k 10` -/
-theorem psetex_short_panics : convertKeyOp ctx0 0 [kPSETEX, [107], [49, 48]] = .panic := by decide
-/-- `SETEX k 10 v EX` -/
-theorem setex_ex_panics : convertKeyOp ctx0 0 [kSETEX, [107], [49, 48], [118], kEX] = .panic := by decide
-/-- `INCR k 1 x EX` / `DECRBY k 1 x PTX` (the tail starts at index 4) -/
-theorem incr_ex_panics : convertKeyOp ctx0 0 [kINCR, [107], [49], [120], kEX] = .panic := by decide
-theorem decrby_ptx_panics : convertKeyOp ctx0 0 [kDECRBY, [107], [49], [120], kPTX] = .panic := by decide
+theorem set_ex_rejected : convertKeyOp ctx0 0 [kSET, [107], [118], kEX] = .err "Args_Count" := by decide
+/-- `APPEND k v PX` -/
+theorem append_px_rejected : convertKeyOp ctx0 0 [kAPPEND, [107], [118], kPX] = .err "Args_Count" := by decide
+/-- `SETEX k 10` / `PSETEX k 10` -/
+theorem setex_short_rejected : convertKeyOp ctx0 0 [kSETEX, [107], [49, 48]] = .err "Args_Count" ∧
+    convertKeyOp ctx0 0 [kPSETEX, [107], [49, 48]] = .err "Args_Count" := by decide
+/-- `INCR k 1 x EX` -/
+theorem incr_ex_rejected : convertKeyOp ctx0 0 [kINCR, [107], [49], [120], kEX] = .err "Args_Count" := by decide
 
-/-! ## per command: the argument-list classes that provably never panic (for ALL argument lists in the class) -/
+/-! ## every registered converter is panic-free over ALL argument lists -/
 
-theorem withTail_no_panic (args : List Bytes) (n : Nat) (h : Hdr) (k : Hdr → Conv) (hk : ∀ h', k h' ≠ .panic)
-    (hl : args.length ≠ n + 1) : withTail args n h k ≠ .panic := by
+theorem withTail_no_panic (args : List Bytes) (n : Nat) (h : Hdr) (k : Hdr → Conv) (hk : ∀ h', k h' ≠ .panic) :
+    withTail args n h k ≠ .panic := by
   unfold withTail
   by_cases hg : args.length > n
   · simp only [hg, if_true]
-    have := convertArgs2Flag_no_panic h (args.drop n) (by simp; omega)
+    have := convertArgs2Flag_no_panic h (args.drop n)
     cases hc : convertArgs2Flag h (args.drop n) with
     | ok h' => exact hk h'
     | err e => simp
     | panic => exact absurd hc this
   · simp only [hg, if_false]; exact hk h
 
-/-- DEL, GET, STRLEN, EXISTS, TYPE, DUMP: never -/
+/-- DEL, GET, STRLEN, EXISTS, TYPE, DUMP -/
 theorem convert_no_panic_read (ctx : Ctx) (args : List Bytes) :
     convDel ctx args ≠ .panic ∧ convRead ctx args ≠ .panic := by
   unfold convDel convRead
@@ -82,7 +77,7 @@ theorem convert_no_panic_read (ctx : Ctx) (args : List Bytes) :
     obtain ⟨a, ha⟩ := this
     simp [h, ha]
 
-/-- EXPIRE, PEXPIRE, PEXPIREAT, PERSIST: never -/
+/-- EXPIRE, PEXPIRE, PEXPIREAT, PERSIST -/
 theorem convert_no_panic_expire (ctx : Ctx) (now : Int) (args : List Bytes) : convExpire ctx now args ≠ .panic := by
   unfold convExpire
   by_cases h : args.length < 3
@@ -100,8 +95,8 @@ theorem convert_no_panic_expire (ctx : Ctx) (now : Int) (args : List Bytes) : co
           simp only []
           cases atoi a2 <;> simp
 
-/-- SET / GETSET, SETNX, APPEND: never, unless there are exactly 4 arguments (`CMD k v <one more>`) -/
-theorem convert_no_panic_set_partial (ctx : Ctx) (args : List Bytes) (hl : args.length ≠ 4) :
+/-- SET / GETSET, SETNX, APPEND -/
+theorem convert_no_panic_set (ctx : Ctx) (args : List Bytes) :
     convSet ctx args ≠ .panic ∧ convSetNX ctx args ≠ .panic ∧ convAppend ctx args ≠ .panic := by
   unfold convSet convSetNX convAppend
   by_cases h : args.length < 3
@@ -114,13 +109,12 @@ theorem convert_no_panic_set_partial (ctx : Ctx) (args : List Bytes) (hl : args.
       | none => have := (idx_none_iff _ _).mp h2; omega
       | some a2 =>
         simp only []
-        refine ⟨?_, ?_, ?_⟩ <;> exact withTail_no_panic _ _ _ _ (fun _ => by simp) hl
+        refine ⟨?_, ?_, ?_⟩ <;> exact withTail_no_panic _ _ _ _ (fun _ => by simp)
 
-/-- SETEX / PSETEX: never, unless there are exactly 3 (`SETEX k 10`) or exactly 5 arguments -/
-theorem convert_no_panic_setex_partial (ctx : Ctx) (args : List Bytes) (h3 : args.length ≠ 3) (h5 : args.length ≠ 5) :
-    convSetEX ctx args ≠ .panic := by
+/-- SETEX / PSETEX -/
+theorem convert_no_panic_setex (ctx : Ctx) (args : List Bytes) : convSetEX ctx args ≠ .panic := by
   unfold convSetEX
-  by_cases h : args.length < 3
+  by_cases h : args.length < 4
   · simp [h]
   · simp only [h, if_false]
     cases h0 : idx args 0 with
@@ -138,11 +132,10 @@ theorem convert_no_panic_setex_partial (ctx : Ctx) (args : List Bytes) (h3 : arg
             simp only []
             cases atoi a2 with
             | none => simp
-            | some x => exact withTail_no_panic _ _ _ _ (fun _ => by simp) h5
+            | some x => exact withTail_no_panic _ _ _ _ (fun _ => by simp)
 
-/-- INCR / INCRBY / DECR / DECRBY: never, unless there are exactly 5 arguments -/
-theorem convert_no_panic_incr_partial (neg : Bool) (ctx : Ctx) (args : List Bytes) (h5 : args.length ≠ 5) :
-    convIncr neg ctx args ≠ .panic := by
+/-- INCR / INCRBY / DECR / DECRBY -/
+theorem convert_no_panic_incr (neg : Bool) (ctx : Ctx) (args : List Bytes) : convIncr neg ctx args ≠ .panic := by
   unfold convIncr
   by_cases h : args.length < 2
   · simp [h]
@@ -159,9 +152,36 @@ theorem convert_no_panic_incr_partial (neg : Bool) (ctx : Ctx) (args : List Byte
           simp only []
           cases atoi a2 with
           | none => simp
-          | some v => exact withTail_no_panic _ _ _ _ (fun _ => by simp) h5
+          | some v => exact withTail_no_panic _ _ _ _ (fun _ => by simp)
       · simp only [hg, if_false]
-        exact withTail_no_panic _ _ _ _ (fun _ => by simp) (by omega)
+        exact withTail_no_panic _ _ _ _ (fun _ => by simp)
+
+/-- `ConvertTextKeyOperateValueCommand` — the registry lookup followed by ANY registered converter — never panics, for
+every non-empty argument list (the dispatcher found the handler by `args[0]`, so the list is non-empty), any argument
+count, any bytes. -/
+theorem convert_no_panic (ctx : Ctx) (now : Int) (args : List Bytes) (hne : args ≠ []) :
+    convertKeyOp ctx now args ≠ .panic := by
+  unfold convertKeyOp
+  cases h0 : idx args 0 with
+  | none =>
+    have := (idx_none_iff _ _).mp h0
+    cases args with
+    | nil => exact absurd rfl hne
+    | cons a as => simp at this
+  | some a0 =>
+    simp only []
+    repeat' split
+    all_goals first
+      | exact convertLock_no_panic' ctx args
+      | exact (convert_no_panic_read ctx args).1
+      | exact (convert_no_panic_read ctx args).2
+      | exact (convert_no_panic_set ctx args).1
+      | exact (convert_no_panic_set ctx args).2.1
+      | exact (convert_no_panic_set ctx args).2.2
+      | exact convert_no_panic_setex ctx args
+      | exact convert_no_panic_incr _ ctx args
+      | exact convert_no_panic_expire ctx now args
+      | (simp; done)
 
 /-! ## the request parser itself -/
 
